@@ -50,3 +50,20 @@ PROPS["C11"] = dict(
 )
 DESCR += [(r"c11_._forurl_h(\d)", "for_url on a domain host of symbolic bytes against symbolic no-proxy entries (shape in the name: h=host length, e=entry lengths)"),
           (r"c11_._forurl_ip", "for_url on an IP-literal host against one symbolic no-proxy entry")]
+
+_BODY_KERNEL = ["ChunkedReader::{new,fill_buf,consume,read,read_chunk_size}", "parse_chunk_size", "buffers::{read_line,read_line_ending}",
+                "BodyReader::{read,fill_buf,consume}", "std::io::{BufReader,Take} as instantiated", "BaseStream::read (Verif arm)"]
+
+PROPS["C01"] = dict(
+    filters={"quick": ["c01_q", "c01_qtwin"], "thorough": ["c01_"]},
+    timeout_s={"quick": 600, "thorough": 3600},
+    kernel=_BODY_KERNEL + ["parse_response (head/body hand-off of the shared BufReader)", "ResponseReader::{bytes,write_to,text_utf8}"],
+    bounds="chunked bodies of <=3 chunks with sizes from {1,2,3,4,5,9,10,17}, leading zeros <=2, extensions none/;x/;x=y/blank, bare-LF lines, 0..3 garbage bytes after the frame; "
+           "length/close bodies of 0..6 bytes; segmentation Whole/OneByte/SplitAt/Max(k); BufReader capacity 1..64; caller read size 1,2,3,8; refill buffer 4 (hook H3); unwind 40",
+    outside="payloads beyond 24 bytes and the production 64 KiB refill constant (argued by parametricity of the refill logic); chunk-size lines of symbolic length",
+    stubs=[],
+    assumptions=["scripted transport contract: a read with a non-empty buffer returns >= 1 byte while bytes are available"],
+)
+DESCR += [(r"c01_._chunked", "well-formed chunked body (shape in the name) with symbolic payload/extension/garbage bytes read to EOF; delivered bytes compared with the generator's payload"),
+          (r"c01_._length", "Content-Length body with symbolic payload and trailing garbage, read to EOF through BodyReader::Length"),
+          (r"c01_._close", "close-delimited body with symbolic payload read to EOF through BodyReader::Close")]
